@@ -48,6 +48,10 @@ def sliceFrom {α} (l : List α) (k : Int) : Option (List α) :=
     theorems prove the translated functions equal to total model functions) -/
 def goDiverge {α} : Option α := none
 
+/-- `make([]*big.Int, n)`: `n` nil pointers, modelled as placeholders (the translated functions
+    overwrite them before reading; capacity is not modelled); panics when `n` is negative -/
+def makeBigs (n : Int) : Option (List Int) := if n < 0 then none else some (List.replicate n.toNat 0)
+
 /-- `new(big.Int).Mul(x, y)` -/
 def bMul (x y : Int) : Int := x * y
 
